@@ -33,6 +33,8 @@ type BlockModel struct {
 	Sig    string // which optional parts the block carries
 	NonDef bool   // non-default granularity / offsets / date granularity
 	Zlib   bool
+	// PayloadOff is the file offset of the PrimitiveBlock bytes when the blob is raw, -1 for zlib blobs
+	PayloadOff int
 }
 
 // File is a generated PBF file with its model.
@@ -253,6 +255,9 @@ func Gen(t *kit.Tape, o Opts) *File {
 		bm := genBlock(t, o, sh, &id, b == bigAt)
 		bm.Offset += len(f.Data)
 		bm.HdrEnd += len(f.Data)
+		if bm.PayloadOff >= 0 {
+			bm.PayloadOff += len(f.Data)
+		}
 		f.Data = append(f.Data, bm.bytes...)
 		bm.End = len(f.Data)
 		f.Blocks = append(f.Blocks, bm.BlockModel)
@@ -576,7 +581,7 @@ func genBlock(t *kit.Tape, o Opts, sh shape, nextID *int64, big bool) genned {
 			groups = append(groups, grp.B)
 		case 3: // plain (non-dense) nodes: legal PBF
 			grp := &W{}
-			sig += " N"
+			sig += fmt.Sprintf(" N(i%v c%s)", sh.wayHas, bstr(sh.wayInfo[:]))
 			for i := 0; i < n; i++ {
 				*nextID += 1 + t.Int64(3)
 				rlat, rlon := t.Int64(2000000)-1000000, t.Int64(2000000)-1000000
@@ -595,14 +600,42 @@ func genBlock(t *kit.Tape, o Opts, sh shape, nextID *int64, big bool) genned {
 					m.Bytes(2, PackedU(ks))
 					m.Bytes(3, PackedU(vs))
 				}
-				if t.Bool() {
+				if sh.wayHas {
 					inf := &W{}
-					v := t.Draw(9)
-					inf.Varint(1, uint64(v))
-					nd.Version = v
-					ts := t.Int64(1000000)
-					inf.Varint(2, uint64(ts))
-					nd.Timestamp = tsFrom(ts, dg)
+					if sh.wayInfo[0] {
+						v := t.Draw(9)
+						inf.Varint(1, uint64(v))
+						nd.Version = v
+					}
+					if sh.wayInfo[1] {
+						ts := t.Int64(1000000)
+						inf.Varint(2, uint64(ts))
+						nd.Timestamp = tsFrom(ts, dg)
+					}
+					if sh.wayInfo[2] {
+						v := t.Draw(99999)
+						inf.Varint(3, uint64(v))
+						nd.ChangesetID = osm.ChangesetID(v)
+					}
+					if sh.wayInfo[3] {
+						v := t.Draw(999)
+						inf.Varint(4, uint64(v))
+						nd.UserID = osm.UserID(v)
+					}
+					if sh.wayInfo[4] {
+						u := rstr(t)
+						inf.Varint(5, st.id(u))
+						nd.User = u
+					}
+					if sh.wayInfo[5] {
+						b := t.Bool()
+						if b {
+							inf.Varint(6, 0)
+						} else {
+							inf.Varint(6, 1)
+						}
+						nd.Visible = !b
+					}
 					m.Bytes(4, inf.B)
 				}
 				m.Varint(8, ZZ(rlat))
@@ -664,6 +697,10 @@ func genBlock(t *kit.Tape, o Opts, sh shape, nextID *int64, big bool) genned {
 	blob := Blob(pb.B, useZlib)
 	bm.bytes = RawFileBlock("OSMData", blob, index)
 	bm.HdrEnd = len(bm.bytes) - len(blob)
+	bm.PayloadOff = -1
+	if !useZlib {
+		bm.PayloadOff = len(bm.bytes) - len(pb.B)
+	}
 	bm.Sig = sig
 	return bm
 }
